@@ -82,3 +82,109 @@ package ivg
 //@   ensures [C19.pack.fields] (and (= (spec.grad.cbase result) (bvand cBase #x3f)) (= (spec.grad.nbase result) (bvand nBase #x3f)) (= (spec.grad.shape result) (bvand shape #x01)) (= (spec.grad.spread result) (bvand spread #x03)) (= (spec.grad.nstops result) (bvand nStops #x3f)))
 //@ contract DecodeGradient
 //@   ensures [C19.unpack C04.unpack] (and (= cBase (spec.grad.cbase c)) (= nBase (spec.grad.nbase c)) (= shape (spec.grad.shape c)) (= spread (spec.grad.spread c)) (= nStops (spec.grad.nstops c)))
+
+// ---- DestinationLogger forwards every call unchanged (C07)
+
+//@ contract (*DestinationLogger).Reset
+//@   modifies tr.ivg.Destination
+//@   ensures [C07.log.Reset] (= tr.ivg.Destination (ite (= d.Destination nil.Iface) (old tr.ivg.Destination) (cons.ivg.Destination (ivg.Destination.Reset d.Destination viewbox palette) (old tr.ivg.Destination))))
+
+//@ contract (*DestinationLogger).SetCSel
+//@   modifies tr.ivg.Destination
+//@   ensures [C07.log.SetCSel] (= tr.ivg.Destination (ite (= d.Destination nil.Iface) (old tr.ivg.Destination) (cons.ivg.Destination (ivg.Destination.SetCSel d.Destination cSel) (old tr.ivg.Destination))))
+
+//@ contract (*DestinationLogger).SetNSel
+//@   modifies tr.ivg.Destination
+//@   ensures [C07.log.SetNSel] (= tr.ivg.Destination (ite (= d.Destination nil.Iface) (old tr.ivg.Destination) (cons.ivg.Destination (ivg.Destination.SetNSel d.Destination nSel) (old tr.ivg.Destination))))
+
+//@ contract (*DestinationLogger).SetCReg
+//@   modifies tr.ivg.Destination
+//@   ensures [C07.log.SetCReg] (= tr.ivg.Destination (ite (= d.Destination nil.Iface) (old tr.ivg.Destination) (cons.ivg.Destination (ivg.Destination.SetCReg d.Destination adj incr c) (old tr.ivg.Destination))))
+
+//@ contract (*DestinationLogger).SetNReg
+//@   modifies tr.ivg.Destination
+//@   ensures [C07.log.SetNReg] (= tr.ivg.Destination (ite (= d.Destination nil.Iface) (old tr.ivg.Destination) (cons.ivg.Destination (ivg.Destination.SetNReg d.Destination adj incr f) (old tr.ivg.Destination))))
+
+//@ contract (*DestinationLogger).SetLOD
+//@   modifies tr.ivg.Destination
+//@   ensures [C07.log.SetLOD] (= tr.ivg.Destination (ite (= d.Destination nil.Iface) (old tr.ivg.Destination) (cons.ivg.Destination (ivg.Destination.SetLOD d.Destination lod0 lod1) (old tr.ivg.Destination))))
+
+//@ contract (*DestinationLogger).StartPath
+//@   modifies tr.ivg.Destination
+//@   ensures [C07.log.StartPath] (= tr.ivg.Destination (ite (= d.Destination nil.Iface) (old tr.ivg.Destination) (cons.ivg.Destination (ivg.Destination.StartPath d.Destination adj x y) (old tr.ivg.Destination))))
+
+//@ contract (*DestinationLogger).ClosePathEndPath
+//@   modifies tr.ivg.Destination
+//@   ensures [C07.log.ClosePathEndPath] (= tr.ivg.Destination (ite (= d.Destination nil.Iface) (old tr.ivg.Destination) (cons.ivg.Destination (ivg.Destination.ClosePathEndPath d.Destination) (old tr.ivg.Destination))))
+
+//@ contract (*DestinationLogger).ClosePathAbsMoveTo
+//@   modifies tr.ivg.Destination
+//@   ensures [C07.log.ClosePathAbsMoveTo] (= tr.ivg.Destination (ite (= d.Destination nil.Iface) (old tr.ivg.Destination) (cons.ivg.Destination (ivg.Destination.ClosePathAbsMoveTo d.Destination x y) (old tr.ivg.Destination))))
+
+//@ contract (*DestinationLogger).ClosePathRelMoveTo
+//@   modifies tr.ivg.Destination
+//@   ensures [C07.log.ClosePathRelMoveTo] (= tr.ivg.Destination (ite (= d.Destination nil.Iface) (old tr.ivg.Destination) (cons.ivg.Destination (ivg.Destination.ClosePathRelMoveTo d.Destination x y) (old tr.ivg.Destination))))
+
+//@ contract (*DestinationLogger).AbsHLineTo
+//@   modifies tr.ivg.Destination
+//@   ensures [C07.log.AbsHLineTo] (= tr.ivg.Destination (ite (= d.Destination nil.Iface) (old tr.ivg.Destination) (cons.ivg.Destination (ivg.Destination.AbsHLineTo d.Destination x) (old tr.ivg.Destination))))
+
+//@ contract (*DestinationLogger).RelHLineTo
+//@   modifies tr.ivg.Destination
+//@   ensures [C07.log.RelHLineTo] (= tr.ivg.Destination (ite (= d.Destination nil.Iface) (old tr.ivg.Destination) (cons.ivg.Destination (ivg.Destination.RelHLineTo d.Destination x) (old tr.ivg.Destination))))
+
+//@ contract (*DestinationLogger).AbsVLineTo
+//@   modifies tr.ivg.Destination
+//@   ensures [C07.log.AbsVLineTo] (= tr.ivg.Destination (ite (= d.Destination nil.Iface) (old tr.ivg.Destination) (cons.ivg.Destination (ivg.Destination.AbsVLineTo d.Destination y) (old tr.ivg.Destination))))
+
+//@ contract (*DestinationLogger).RelVLineTo
+//@   modifies tr.ivg.Destination
+//@   ensures [C07.log.RelVLineTo] (= tr.ivg.Destination (ite (= d.Destination nil.Iface) (old tr.ivg.Destination) (cons.ivg.Destination (ivg.Destination.RelVLineTo d.Destination y) (old tr.ivg.Destination))))
+
+//@ contract (*DestinationLogger).AbsLineTo
+//@   modifies tr.ivg.Destination
+//@   ensures [C07.log.AbsLineTo] (= tr.ivg.Destination (ite (= d.Destination nil.Iface) (old tr.ivg.Destination) (cons.ivg.Destination (ivg.Destination.AbsLineTo d.Destination x y) (old tr.ivg.Destination))))
+
+//@ contract (*DestinationLogger).RelLineTo
+//@   modifies tr.ivg.Destination
+//@   ensures [C07.log.RelLineTo] (= tr.ivg.Destination (ite (= d.Destination nil.Iface) (old tr.ivg.Destination) (cons.ivg.Destination (ivg.Destination.RelLineTo d.Destination x y) (old tr.ivg.Destination))))
+
+//@ contract (*DestinationLogger).AbsSmoothQuadTo
+//@   modifies tr.ivg.Destination
+//@   ensures [C07.log.AbsSmoothQuadTo] (= tr.ivg.Destination (ite (= d.Destination nil.Iface) (old tr.ivg.Destination) (cons.ivg.Destination (ivg.Destination.AbsSmoothQuadTo d.Destination x y) (old tr.ivg.Destination))))
+
+//@ contract (*DestinationLogger).RelSmoothQuadTo
+//@   modifies tr.ivg.Destination
+//@   ensures [C07.log.RelSmoothQuadTo] (= tr.ivg.Destination (ite (= d.Destination nil.Iface) (old tr.ivg.Destination) (cons.ivg.Destination (ivg.Destination.RelSmoothQuadTo d.Destination x y) (old tr.ivg.Destination))))
+
+//@ contract (*DestinationLogger).AbsQuadTo
+//@   modifies tr.ivg.Destination
+//@   ensures [C07.log.AbsQuadTo] (= tr.ivg.Destination (ite (= d.Destination nil.Iface) (old tr.ivg.Destination) (cons.ivg.Destination (ivg.Destination.AbsQuadTo d.Destination x1 y1 x y) (old tr.ivg.Destination))))
+
+//@ contract (*DestinationLogger).RelQuadTo
+//@   modifies tr.ivg.Destination
+//@   ensures [C07.log.RelQuadTo] (= tr.ivg.Destination (ite (= d.Destination nil.Iface) (old tr.ivg.Destination) (cons.ivg.Destination (ivg.Destination.RelQuadTo d.Destination x1 y1 x y) (old tr.ivg.Destination))))
+
+//@ contract (*DestinationLogger).AbsSmoothCubeTo
+//@   modifies tr.ivg.Destination
+//@   ensures [C07.log.AbsSmoothCubeTo] (= tr.ivg.Destination (ite (= d.Destination nil.Iface) (old tr.ivg.Destination) (cons.ivg.Destination (ivg.Destination.AbsSmoothCubeTo d.Destination x2 y2 x y) (old tr.ivg.Destination))))
+
+//@ contract (*DestinationLogger).RelSmoothCubeTo
+//@   modifies tr.ivg.Destination
+//@   ensures [C07.log.RelSmoothCubeTo] (= tr.ivg.Destination (ite (= d.Destination nil.Iface) (old tr.ivg.Destination) (cons.ivg.Destination (ivg.Destination.RelSmoothCubeTo d.Destination x2 y2 x y) (old tr.ivg.Destination))))
+
+//@ contract (*DestinationLogger).AbsCubeTo
+//@   modifies tr.ivg.Destination
+//@   ensures [C07.log.AbsCubeTo] (= tr.ivg.Destination (ite (= d.Destination nil.Iface) (old tr.ivg.Destination) (cons.ivg.Destination (ivg.Destination.AbsCubeTo d.Destination x1 y1 x2 y2 x y) (old tr.ivg.Destination))))
+
+//@ contract (*DestinationLogger).RelCubeTo
+//@   modifies tr.ivg.Destination
+//@   ensures [C07.log.RelCubeTo] (= tr.ivg.Destination (ite (= d.Destination nil.Iface) (old tr.ivg.Destination) (cons.ivg.Destination (ivg.Destination.RelCubeTo d.Destination x1 y1 x2 y2 x y) (old tr.ivg.Destination))))
+
+//@ contract (*DestinationLogger).AbsArcTo
+//@   modifies tr.ivg.Destination
+//@   ensures [C07.log.AbsArcTo] (= tr.ivg.Destination (ite (= d.Destination nil.Iface) (old tr.ivg.Destination) (cons.ivg.Destination (ivg.Destination.AbsArcTo d.Destination rx ry xAxisRotation largeArc sweep x y) (old tr.ivg.Destination))))
+
+//@ contract (*DestinationLogger).RelArcTo
+//@   modifies tr.ivg.Destination
+//@   ensures [C07.log.RelArcTo] (= tr.ivg.Destination (ite (= d.Destination nil.Iface) (old tr.ivg.Destination) (cons.ivg.Destination (ivg.Destination.RelArcTo d.Destination rx ry xAxisRotation largeArc sweep x y) (old tr.ivg.Destination))))
